@@ -350,3 +350,11 @@ PROPS['C08']['mir'] = {'quick': [mrun(ORDER, nmax=3), {'scenarios': [x + '@ind' 
                        'thorough': [mrun(ORDER, nmax=6), {'scenarios': [x + '@ind' for x in ORDER], 'nmax': 3, 'timeout': 1800, 'soft_inconclusive': True}]}
 PROPS['C08']['technique'] = 'bounded model checking with Kani/CBMC (logging closures, element types of non-zero and zero size) + symbolic execution of rustc MIR with z3: the k-th call of the caller\'s function receives element/index k, its result lands in slot k, exactly N calls, no panic of the crate\'s own; element size symbolic (0 included); unrolled N <= 3/6 and all N by loop-invariant induction'
 PROPS['C08']['bounds'] += ' M: generate, boxed generate, map (owned and &), zip, fold, clone: N <= 3 (thorough 6) unrolled and ALL N < 2^63 by induction; size_of::<T>() symbolic including 0 (pointers compare by address).'
+
+# write permission of mutable views (added after the third seeded round: `as_ptr()` where `as_mut_ptr()` was meant leaves address, length and
+# contents right and makes every write through the view undefined behaviour)
+for pid in ('C02', 'C10', 'C11'):
+    PROPS[pid]['mir']['quick'].append(mrun(['mutprov'], nmax=3))
+    PROPS[pid]['bounds'] += ' M (mutprov): every `&mut`-to-`&mut` view function of the crate, all N: the returned pointer is derived from the argument through mutable borrows / raw pointers only (a step through a shared borrow is reported; confirmed by Miri with Tree Borrows on a driver that writes through every view).'
+    PROPS[pid].setdefault('outside', [])
+    PROPS[pid]['outside'] = list(PROPS[pid]['outside']) + ['aliasing-model rules beyond "no write permission through a shared borrow" (Stacked Borrows rejects the unchanged chunks_from_slice_mut; Tree Borrows accepts the unchanged crate)']
